@@ -113,7 +113,7 @@ theorem step_absent {cfg : Config} (hmb : cfg.maxBytes < 2 ^ 63) {g g' : G} (hi 
         exact local_ok g _ rfl rfl rfl hno
       | hit o' =>
         rw [hr] at hs; cases hs
-        rcases sec1_hit hr with ⟨sl, hl, _⟩
+        rcases sec1_hit hi.clock hr with ⟨sl, hl, _⟩
         by_cases hut : u = t
         · -- thread `t` itself cannot hit: its key is absent
           exfalso
@@ -125,7 +125,7 @@ theorem step_absent {cfg : Config} (hmb : cfg.maxBytes < 2 ^ 63) {g g' : G} (hi 
           rw [getElem?_set_other hut] at hx; exact hkey x hx
       | pass sh' =>
         rw [hr] at hs; cases hs
-        have hk' : sh'.store.lookup k = none := lookup_none_of_sub (sec1_sub hr) hk
+        have hk' : sh'.store.lookup k = none := lookup_none_of_sub (sec1_sub hmb hi.sh hr) hk
         refine ⟨hk', ?_, ?_⟩
         · by_cases hut : u = t
           · subst hut
@@ -179,10 +179,12 @@ theorem step_absent {cfg : Config} (hmb : cfg.maxBytes < 2 ^ 63) {g g' : G} (hi 
         cases hres with
         | stored _ idx mid hsh' hst hsub hskip =>
           have hk' : sh'.store.lookup k = none := by
-            rw [hst, lookup_set]
-            have : ¬ k = mkKey th.req := fun e => hne e.symm
-            simp only [this, if_false]
-            exact lookup_none_of_sub hsub hk
+            rcases hst with hst | hst
+            · rw [hst, lookup_set]
+              have : ¬ k = mkKey th.req := fun e => hne e.symm
+              simp only [this, if_false]
+              exact lookup_none_of_sub hsub hk
+            · rw [hst]; exact lookup_none_of_sub hsub hk
           refine ⟨hk', ?_, ?_⟩
           · by_cases hut : u = t
             · subst hut
